@@ -2,7 +2,7 @@
 From Coq Require Import ZArith Reals Lra List Bool Lia Arith Sorted.
 From PW Require Import Num NumR Vec NpList Result.
 From PW.model Require Import M_slicing.
-From PW.proofs Require Import P_nplist.
+From PW.proofs Require Import P_nplist P_slicing.
 Import ListNotations.
 
 (* ---- unique_bincount ---------------------------------------------------------------------------------------------- *)
@@ -141,19 +141,19 @@ Section Mesh.
   Proof. revert base. induction qs as [|d r IH]; intros base; cbn [quad_faces quad_faces1 app length]; [reflexivity|]. rewrite IH. lia. Qed.
   Lemma tri_faces_length base (ts : list fdata) : length (tri_faces base ts) = length ts.
   Proof. revert base. induction ts as [|d r IH]; intros base; cbn [tri_faces tri_faces1 app length]; [reflexivity|]. rewrite IH. lia. Qed.
-  Lemma quad_verts_length (qs : list fdata) : length (quad_verts ROps eps n o qs) = 2 * length qs.
+  Lemma quad_verts_length (qs : list fdata) : length (quad_verts ROps eps qs) = 2 * length qs.
   Proof.
     unfold quad_verts. induction qs as [|d r IH]; cbn [flat_map quad_new app length] in *; [reflexivity|]. rewrite IH. lia.
   Qed.
-  Lemma tri_verts_length (ts : list fdata) : length (tri_verts ROps eps n o ts) = 2 * length ts.
+  Lemma tri_verts_length (ts : list fdata) : length (tri_verts ROps eps ts) = 2 * length ts.
   Proof.
     unfold tri_verts. induction ts as [|d r IH]; cbn [flat_map tri_new app length] in *; [reflexivity|]. rewrite IH. lia.
   Qed.
 
   (* ---- one source index per output face, naming an input face ------------------------------------------------- *)
   Lemma slice_fds_mapping_len vs (fds : list fdata) :
-    length (mo_map (slice_fds ROps eps n o vs fds)) = length (mo_f (slice_fds ROps eps n o vs fds)) /\
-    Forall (fun i => i < length fds) (mo_map (slice_fds ROps eps n o vs fds)).
+    length (mo_map (slice_fds ROps eps vs fds)) = length (mo_f (slice_fds ROps eps vs fds)) /\
+    Forall (fun i => i < length fds) (mo_map (slice_fds ROps eps vs fds)).
   Proof.
     unfold slice_fds.
     pose proof (flatnonzero_Forall_lt (inside_mask fds)) as Hk.
@@ -178,7 +178,7 @@ Section Mesh.
   (* nothing kept and nothing cut: three empty arrays *)
   Lemma slice_fds_all_dropped vs (fds : list fdata) :
     (forall d, In d fds -> face_case (fd_s d) (fd_m d) = Drop) ->
-    slice_fds ROps eps n o vs fds = MkOut [] [] [].
+    slice_fds ROps eps vs fds = MkOut [] [] [].
   Proof.
     intros H. unfold slice_fds.
     assert (Hi : flatnonzero (inside_mask fds) = []).
@@ -205,8 +205,8 @@ Proof.
   - destruct (forallb _ idx); [|discriminate]. intros [= <-]. rewrite map_length, seq_length. reflexivity.
   - intros [= <-]. apply repeat_length.
 Qed.
-Lemma resolve_length (vs : list (vec3 R)) sg fs mask fds :
-  length mask = length fs -> resolve vs sg fs mask = Some fds -> length fds = length fs.
+Lemma resolve_length (vs : list (vec3 R)) dots sg fs mask fds :
+  length mask = length fs -> resolve vs dots sg fs mask = Some fds -> length fds = length fs.
 Proof.
   intros Hl H. unfold resolve in H. apply all_some_length in H. rewrite map_length, zip_length in H by lia. exact H.
 Qed.
@@ -219,8 +219,8 @@ Proof.
   - intros [= <-]. cbn [mo_map mo_f]. rewrite seq_length. split; [reflexivity|].
     apply Forall_forall. intros i Hi. apply in_seq in Hi. lia.
   - destruct (mask_of (length fs) fi) as [mask|e] eqn:Em; cbn [rbind]; [|discriminate].
-    destruct (resolve vs _ fs mask) as [fds|] eqn:Er; [|discriminate]. intros [= <-].
-    pose proof (resolve_length _ _ _ _ _ (mask_of_length _ _ _ Em) Er) as Hl.
+    destruct (resolve vs _ _ fs mask) as [fds|] eqn:Er; [|discriminate]. intros [= <-].
+    pose proof (resolve_length _ _ _ _ _ _ (mask_of_length _ _ _ Em) Er) as Hl.
     rewrite <- Hl. apply slice_fds_mapping_len.
 Qed.
 Theorem slice_mapping_len vs fs ref n mask r :
@@ -268,19 +268,20 @@ Theorem slice_all_behind tol eps vs fs n o : (0 <= tol)%R -> vs <> [] ->
 Proof.
   intros Ht Hvs Hb Hf. unfold slice_faces_plane.
   destruct vs as [|v0 vs0]; [congruence|]. cbn [length Nat.eqb mask_of rbind]. set (vs := v0 :: vs0) in *.
-  set (sg := map (fun v => vsign ROps tol (plane_dot ROps n o v)) vs).
+  set (dots := map (snapped_dot ROps tol n o) vs). set (sg := map (vsign ROps tol) dots).
   assert (Hsg : forall s, In s sg -> s = 1%Z).
-  { intros s Hs. apply in_map_iff in Hs. destruct Hs as (v & <- & Hv). specialize (Hb v Hv).
-    unfold vsign; rops. destruct (Rltb_spec tol (plane_dot ROps n o v)); [exfalso; lra|].
-    destruct (Rltb_spec (plane_dot ROps n o v) (- tol)); [reflexivity|exfalso; lra]. }
-  destruct (all_some_exists (map (resolve1 vs sg) (zip fs (repeat true (length fs))))) as [fds Hfds].
+  { intros s Hs. apply in_map_iff in Hs. destruct Hs as (d & <- & Hd). apply in_map_iff in Hd. destruct Hd as (v & <- & Hv).
+    specialize (Hb v Hv). apply (vsign_behind tol _ Ht). unfold snapped_dot.
+    pose proof (snap_cases tol (plane_dot ROps n o v) Ht). lra. }
+  destruct (all_some_exists (map (resolve1 vs dots sg) (zip fs (repeat true (length fs))))) as [fds Hfds].
   { intros x Hx. apply in_map_iff in Hx. destruct Hx as ((f & m) & <- & Hfm). apply zip_In in Hfm. destruct Hfm as [Hfin _].
     unfold resolve1. cbn [fst snd]. destruct (lookup3_some vs f (Hf f Hfin)) as [t ->].
-    destruct (lookup3_some sg f) as [s ->]; [unfold sg; rewrite map_length; apply Hf, Hfin|]. eexists; reflexivity. }
-  unfold resolve. fold sg. rewrite Hfds. f_equal. apply slice_fds_all_dropped.
+    destruct (lookup3_some dots f) as [d ->]; [unfold dots; rewrite map_length; apply Hf, Hfin|].
+    destruct (lookup3_some sg f) as [s ->]; [unfold sg, dots; rewrite !map_length; apply Hf, Hfin|]. eexists; reflexivity. }
+  unfold resolve. fold dots. fold sg. rewrite Hfds. f_equal. apply slice_fds_all_dropped.
   intros d Hd. apply (all_some_In _ _ _ Hfds) in Hd. apply in_map_iff in Hd. destruct Hd as ((f & m) & Hr & Hfm).
   apply zip_In in Hfm. destruct Hfm as [_ Hm]. apply repeat_spec in Hm. subst m.
-  unfold resolve1 in Hr. cbn [fst snd] in Hr. destruct (lookup3 vs f); [|discriminate].
+  unfold resolve1 in Hr. cbn [fst snd] in Hr. destruct (lookup3 vs f); [|discriminate]. destruct (lookup3 dots f); [|discriminate].
   destruct (lookup3 sg f) as [[[a b] c]|] eqn:El; [|discriminate]. injection Hr as <-. cbn [fd_s fd_m].
   apply lookup3_In in El. destruct El as (Ha & Hb' & Hc). rewrite (Hsg a Ha), (Hsg b Hb'), (Hsg c Hc). reflexivity.
 Qed.
@@ -361,8 +362,8 @@ Section Mesh2.
   (* the faces handed to the renumbering only index the concatenated vertex array *)
   Lemma slice_fds_wellformed vs (fds : list fdata) :
     (forall d, In d fds -> face_valid (length vs) (fd_f d)) ->
-    Forall (face_valid (length (mo_v (slice_fds ROps eps n o vs fds)))) (mo_f (slice_fds ROps eps n o vs fds)) /\
-    (forall i, i < length (mo_v (slice_fds ROps eps n o vs fds)) -> In i (flat_faces (mo_f (slice_fds ROps eps n o vs fds)))).
+    Forall (face_valid (length (mo_v (slice_fds ROps eps vs fds)))) (mo_f (slice_fds ROps eps vs fds)) /\
+    (forall i, i < length (mo_v (slice_fds ROps eps vs fds)) -> In i (flat_faces (mo_f (slice_fds ROps eps vs fds)))).
   Proof.
     intros Hd. unfold slice_fds.
     set (kept := map (@fd_f R) (take fds (flatnonzero (inside_mask fds)))).
@@ -376,11 +377,11 @@ Section Mesh2.
       + split; [constructor|]. intros i Hi. cbn [length] in Hi. lia.
       + destruct (renumber_spec vs kept Hk) as (H1 & H2 & _). split; assumption.
     - cbn [mo_v mo_f].
-      set (NV := vs ++ quad_verts ROps eps n o quads ++ tri_verts ROps eps n o tris).
+      set (NV := vs ++ quad_verts ROps eps quads ++ tri_verts ROps eps tris).
       assert (HL : length NV = length vs + 2 * length quads + 2 * length tris).
       { unfold NV. rewrite !app_length, quad_verts_length, tri_verts_length. lia. }
       assert (Hall : Forall (face_valid (length NV))
-                (kept ++ quad_faces (length vs) quads ++ tri_faces (length vs + length (quad_verts ROps eps n o quads)) tris)).
+                (kept ++ quad_faces (length vs) quads ++ tri_faces (length vs + length (quad_verts ROps eps quads)) tris)).
       { apply Forall_app. split; [|apply Forall_app; split].
         - eapply Forall_impl; [|exact Hk]. intros f. apply face_valid_mono. lia.
         - apply (quad_faces_valid (length vs)); [exact Hq|lia|lia].
@@ -389,12 +390,13 @@ Section Mesh2.
   Qed.
 End Mesh2.
 
-Lemma resolve_valid (vs : list (vec3 R)) sg fs mask fds d :
-  resolve vs sg fs mask = Some fds -> In d fds -> face_valid (length vs) (fd_f d).
+Lemma resolve_valid (vs : list (vec3 R)) dots sg fs mask fds d :
+  resolve vs dots sg fs mask = Some fds -> In d fds -> face_valid (length vs) (fd_f d).
 Proof.
   intros Hr Hd. unfold resolve in Hr. apply (all_some_In _ _ _ Hr) in Hd. apply in_map_iff in Hd.
   destruct Hd as ((f & m) & Hres & _). unfold resolve1 in Hres. cbn [fst snd] in Hres.
-  destruct (lookup3 vs f) as [t|] eqn:El; [|discriminate]. destruct (lookup3 sg f); [|discriminate].
+  destruct (lookup3 vs f) as [t|] eqn:El; [|discriminate]. destruct (lookup3 dots f); [|discriminate].
+  destruct (lookup3 sg f); [|discriminate].
   injection Hres as <-. cbn [fd_f]. unfold lookup3 in El.
   destruct (nth_error vs (fget f 0)) eqn:E0; [|discriminate]. destruct (nth_error vs (fget f 1)) eqn:E1; [|discriminate].
   destruct (nth_error vs (fget f 2)) eqn:E2; [|discriminate].
@@ -413,6 +415,6 @@ Proof.
     + apply Forall_forall. intros f Hin. apply Hf, Hin.
     + intros i Hi. lia.
   - destruct (mask_of (length fs) _) as [m|e]; cbn [rbind]; [|discriminate].
-    destruct (resolve vs _ fs m) as [fds|] eqn:Er; [|discriminate]. intros [= <-].
+    destruct (resolve vs _ _ fs m) as [fds|] eqn:Er; [|discriminate]. intros [= <-].
     apply slice_fds_wellformed. intros d Hd. eapply resolve_valid; eassumption.
 Qed.
